@@ -74,6 +74,8 @@ MUST = [
     "e\u0301 \u2126\u212b \u1100\u1161 \ufb01\u00b5",
     # strings whose FIRST character means something to some reader of such a field (theme-font reference, vertical font, option, hidden file, id)
     "+mn-lt", "@Arial Unicode MS", "-x", ".hidden", "#ref!",
+    # strings that spell the name or the value of a member of one of the library's enumerations, or a Python constant: still strings
+    "XLSX", "PPTX", "DOCX", "None", "True", "RECTANGLE", "ctr", "Excel.Sheet.12",
 ]
 ATOMS = [
     "&", "<", ">", '"', "'", "]]>", "&amp;", "&lt;", "&gt;", "&quot;", "&apos;", "&#65;", "&#x41;", "&#0;", "&nosuch;", "&a", "AT&T;",
